@@ -85,6 +85,7 @@ type ledgers struct {
 	connTerm     map[int]uint64
 	reportedTerm map[uint64]uint64 // nid -> highest term it put on the wire in a response or vote request
 	rounds       map[[3]uint64]uint64 // (leader, term, node) -> highest target index of a completed round
+	commitKnown  map[uint64]uint64 // nid -> highest commit index observed on that node (any incarnation)
 	floor        map[uint64]uint64 // nid -> highest index it must still hold after a crash
 	ackedIdx     map[uint64]uint64 // nid -> highest index acknowledged with success (across incarnations)
 }
@@ -105,6 +106,7 @@ func newLedgers(c *cluster) *ledgers {
 		persisted: map[uint64]map[[2]uint64]bool{},
 		ackedIdx: map[uint64]uint64{},
 		floor: map[uint64]uint64{},
+		commitKnown: map[uint64]uint64{},
 		rounds: map[[3]uint64]uint64{},
 	}
 }
@@ -123,6 +125,10 @@ func (l *ledgers) onStart(n *simNode) {
 		// everything it acknowledged as stored (or committed) and did not truncate since
 		if fl := l.floor[n.id]; r.lastLogIndex < fl {
 			c.fail("restart-consistent", "restart-lost-acked", "node %d restarted with last index %d although it had acknowledged/committed up to %d", n.id, r.lastLogIndex, fl)
+		}
+		// entries it knew to be committed (its own commit index covered them)
+		if ck := l.commitKnown[n.id]; r.lastLogIndex < ck {
+			c.fail("commit-stable", "committed-lost-on-restart", "node %d restarted with last index %d although its commit index had reached %d before", n.id, r.lastLogIndex, ck)
 		}
 		prev, snap := r.log.PrevIndex(), r.snaps.index
 		if prev > snap || snap > r.lastLogIndex {
@@ -357,7 +363,10 @@ func (c *cluster) observeNode(n *simNode) {
 			if had && leaderContinuing {
 				c.fail("leader-append-only", "leader-rewrote", "node %d rewrote its own entry %d (term %d -> %d) while leader of term %d", n.id, i, old, et, term)
 			}
-			if had && i <= l.maxCommitPre {
+			// a follower outside the committing majority may legitimately replace its
+			// copy of an entry it does not know to be committed (stale leader's append);
+			// what no node may ever touch is an entry at or below its OWN commit index
+			if had && i <= sh.commit {
 				if ci := l.commit[i]; ci != nil && ci.term == old {
 					c.fail("commit-stable", "committed-overwritten", "node %d overwrote committed entry %d (term %d) with term %d", n.id, i, old, et)
 				}
@@ -381,7 +390,7 @@ func (c *cluster) observeNode(n *simNode) {
 			if leaderContinuing {
 				c.fail("leader-append-only", "leader-truncated", "node %d removed its own entry %d while leader of term %d", n.id, i, term)
 			}
-			if ci := l.commit[i]; ci != nil && i <= l.maxCommitPre && ci.term == sh.terms[i] {
+			if ci := l.commit[i]; ci != nil && i <= sh.commit && ci.term == sh.terms[i] {
 				c.fail("commit-stable", "committed-truncated", "node %d truncated committed entry %d (term %d)", n.id, i, ci.term)
 			}
 		}
@@ -424,6 +433,9 @@ func (c *cluster) observeNode(n *simNode) {
 	sh.terms, sh.prev, sh.last = newTerms, prev, last
 	if r.commitIndex > sh.commit {
 		sh.commit = r.commitIndex
+	}
+	if r.commitIndex > l.commitKnown[n.id] && r.commitIndex <= last {
+		l.commitKnown[n.id] = r.commitIndex
 	}
 	sh.term, sh.state, sh.snap = term, state, snapIdx
 	sh.leader = r.leader
